@@ -127,6 +127,7 @@ func runMirror(events []string, props []string, seed int, args map[string]string
 	commitsAtSeed := 0
 	var writesAfter []int
 	writesAfter = append(writesAfter, s.st.f.writes)
+	var posAfter []string
 	for i, ev := range events {
 		s.step = i
 		gFrom, sFrom := len(s.gLog), len(s.sLog)
@@ -138,6 +139,8 @@ func runMirror(events []string, props []string, seed int, args map[string]string
 		}
 		crashedHere := s.st.f.frozen
 		if s.st.f.frozen {
+			// Calls that were in flight when the process stopped are not calls that "did not return".
+			s.blocked = ""
 			// The process stopped in the middle of this event: nothing further happens until it is restarted.
 			s.stop()
 			after := s.snapshotStoresOnly()
@@ -175,6 +178,12 @@ func runMirror(events []string, props []string, seed int, args map[string]string
 		}
 		res.Keys = append(res.Keys, vx.ShortHash(s.key(after))[:12])
 		writesAfter = append(writesAfter, s.st.f.writes)
+		posAfter = append(posAfter, posKey(after))
+		if crashedHere && args != nil && args["expect_after"] != "" && posBehind(posKey(after), args["expect_after"]) {
+			// C10, last sentence: with the interrupted message delivered again the node is (at least) where the
+			// uninterrupted run is after that message; votes persisted before the stop may let it be ahead for a while.
+			o.violate("C10", "position-after-redelivery-behind-crash-free-run", fmt.Sprintf("after the stop inside %s, the restart and the redelivery the node is at [%s]; without the stop it is at [%s] after that message", ev, posKey(after), args["expect_after"]))
+		}
 		before = after
 		if i+1 == seed {
 			commitsAtSeed = len(after.headers)
@@ -203,7 +212,7 @@ func runMirror(events []string, props []string, seed int, args map[string]string
 
 	res.Key = s.key(final)
 	res.Trace = events
-	res.Obs, _ = json.Marshal(map[string]any{"end": endKey(final), "writes": writesAfter, "crashed": s.restarts})
+	res.Obs, _ = json.Marshal(map[string]any{"end": endKey(final), "writes": writesAfter, "crashed": s.restarts, "pos": posAfter})
 	res.Outcome = fmt.Sprintf("V%d/%d C%d hdrs%d r%d", final.voting.Height, final.voting.Round, final.committing.Height, len(final.headers), s.restarts)
 	_ = commitsAtSeed
 	res.NonTrivial = len(final.headers) > 0 || len(s.delivered) > 0
@@ -231,4 +240,41 @@ func (s *sys) noteRoundEnd(before, after snap) {
 		pow += s.w.VS(h).Validators[i].Power
 	}
 	s.roundEnds = append(s.roundEnds, roundEnd{h: h, r: r, seg: s.restarts, nilQuorum: pow >= majority(s.w.total(h))})
+}
+
+
+// posKey: voting and committing position and the committed chain, for the comparison of a crashed run with the
+// crash-free run at the same point of the history.
+func posKey(sn snap) string {
+	hs := make([]int, 0, len(sn.headers))
+	for h := range sn.headers {
+		hs = append(hs, int(h))
+	}
+	sort.Ints(hs)
+	var sb strings.Builder
+	fmt.Fprintf(&sb, "voting %d/%d committing %d/%d chain", sn.voting.Height, sn.voting.Round, sn.committing.Height, sn.committing.Round)
+	for _, h := range hs {
+		fmt.Fprintf(&sb, " %d=%s", h, h8(sn.headers[uint64(h)].Header.Hash))
+	}
+	return sb.String()
+}
+
+
+// posBehind reports whether position a (posKey format) is behind b in voting position, committing position or
+// length of the committed chain.
+func posBehind(a, b string) bool {
+	parse := func(s string) (v [5]int) {
+		var chain string
+		fmt.Sscanf(s, "voting %d/%d committing %d/%d chain", &v[0], &v[1], &v[2], &v[3])
+		if i := strings.Index(s, "chain"); i >= 0 {
+			chain = strings.TrimSpace(s[i+5:])
+		}
+		if chain != "" {
+			v[4] = len(strings.Fields(chain))
+		}
+		return
+	}
+	x, y := parse(a), parse(b)
+	less := func(p, q [2]int) bool { return p[0] < q[0] || (p[0] == q[0] && p[1] < q[1]) }
+	return less([2]int{x[0], x[1]}, [2]int{y[0], y[1]}) || less([2]int{x[2], x[3]}, [2]int{y[2], y[3]}) || x[4] < y[4]
 }
